@@ -191,9 +191,15 @@ impl fmt::Display for HumanFloatCount {
         let precision = f.precision().unwrap_or(4);
         let num = format!("{:.*}", precision, self.0);
 
-        let (int_part, frac_part) = match num.split_once('.') {
-            Some((int_str, fract_str)) => (int_str.to_string(), fract_str),
-            None => (self.0.trunc().to_string(), ""),
+        // Group only the digits of the rounded rendering: the sign is not a digit, and with
+        // precision 0 there is no '.' but `num` already is the rounded integer.
+        let (int_part, frac_part) = num.split_once('.').unwrap_or((&num, ""));
+        let int_part = match int_part.strip_prefix('-') {
+            Some(digits) => {
+                f.write_char('-')?;
+                digits
+            }
+            None => int_part,
         };
         let len = int_part.len();
         for (idx, c) in int_part.chars().enumerate() {
